@@ -17,7 +17,7 @@
                      where the document admits two; result "und" where it determines nothing.
    MECHANISM layer : MEval(P, route, dir, peer) - shaped like internal/pkg/table/policy.go
                      (loops with break, result flags, OldNextHop, error paths of SetMed).
-   Design level (MCPolicy): the mechanism stays inside the documented envelope.
+   Design level (PolicyMC): the mechanism stays inside the documented envelope.
 *)
 EXTENDS Integers, Sequences, FiniteSets, TLC, SequencesExt, PolicyDom
 
